@@ -555,6 +555,25 @@ def check_tsd_client(model, api, specs, trace, oc, out_v):
                     out_v.append(viol('tsd_client-arg-type:%s' % type(base).__name__, 'method %s takes %s, expected %s' % (name, got, exp), inputs))
             if not ret.startswith('Promise<'):
                 out_v.append(viol('tsd_client-return', 'method %s returns %s' % (name, ret), inputs))
+        if '--import-namespaces' in opts:
+            # every namespace-qualified type name of the declarations (outside comments) needs its namespace in the import list, and
+            # the name must be a struct, union or alias that the spec declares in that namespace
+            import re as _re
+            code = _re.sub(r'/\*.*?\*/', ' ', text, flags=_re.S)
+            code = _re.sub(r'//[^\n]*', ' ', code)
+            imported = set()
+            for m_ in _re.finditer(r'import\s*\{([^}]*)\}\s*from', code):
+                imported.update(x.strip() for x in m_.group(1).split(',') if x.strip())
+            declared_names = {(n, d.name) for n, fi, di, d in mm.all_defs(model) if isinstance(d, (Struct, Union, Alias))}
+            for m_ in _re.finditer(r'(?<![\w.])([A-Za-z_]\w*)\.([A-Za-z_]\w*)', code):
+                nsn_, nm_ = m_.group(1), m_.group(2)
+                if nsn_ not in {ns.name for ns in model.namespaces}:
+                    continue
+                if nsn_ not in imported:
+                    out_v.append(viol('tsd_client-unresolved-name:not-imported', 'tsd_client (--import-namespaces) refers to %s.%s but does not import %s (imports: %r)' % (
+                        nsn_, nm_, nsn_, sorted(imported)), inputs, text[:1500]))
+                elif (nsn_, nm_) not in declared_names:
+                    out_v.append(viol('tsd_client-unresolved-name:undeclared', 'tsd_client refers to %s.%s, which the spec does not declare' % (nsn_, nm_), inputs, text[:1500]))
         oc['tsd_client-checked'] += 1
 
 
